@@ -1,1 +1,112 @@
-import EoNVerif.Basic
+import EoNVerif.Proofs.Relabel
+/-!
+C14 — the models depend on the network only through its structure.
+(1) insertion order: permuting the order of the adjacency lists changes nothing;
+(2) node names: relabelling the nodes by a bijection σ maps every per-node quantity through σ and leaves every
+    aggregate quantity unchanged.
+The definition `Discrete.relabel` lives in `EoNVerif.Proofs.Relabel`.
+Only the left-inverse law `σ' ∘ σ = id` (injectivity of σ) is used by the proofs; the right-inverse hypothesis `hr` is
+kept in the statements so that they read "σ is a bijection".
+-/
+set_option linter.unusedVariables false
+
+/-! ## insertion order of the neighbours -/
+namespace InitCond
+/-- degree-class and pair counts are invariant under reordering each adjacency list -/
+theorem counts_adj_perm (adj adj' : List (List Nat)) (hl : adj.length = adj'.length)
+    (hp : ∀ u, u < adj.length → (adj.getD u []).Perm (adj'.getD u [])) (st : Nat → St) (x y : St) (k : Nat) :
+    Nk adj k = Nk adj' k ∧ classCount adj st x k = classCount adj' st x k ∧
+    pairCount adj st x y = pairCount adj' st x y ∧ twoM adj = twoM adj' :=
+  counts_adj_perm' adj adj' hl hp st x y k
+end InitCond
+
+namespace ODE
+/-- the individual-based right-hand sides do not depend on the order of the neighbour lists -/
+theorem sisIndividual_nbr_perm (nbrs nbrs' : Nat → List Nat) (hp : ∀ i, (nbrs i).Perm (nbrs' i))
+    (tr : Nat → Nat → Rat) (rr : Nat → Rat) (Y : Nat → Rat) (i : Nat) :
+    sisIndividual nbrs tr rr Y i = sisIndividual nbrs' tr rr Y i :=
+  sisIndividual_nbr_perm' nbrs nbrs' hp tr rr Y i
+theorem sirIndividual_nbr_perm (nbrs nbrs' : Nat → List Nat) (hp : ∀ i, (nbrs i).Perm (nbrs' i))
+    (tr : Nat → Nat → Rat) (rr : Nat → Rat) (X Y : Nat → Rat) (i : Nat) :
+    (sirIndividual nbrs tr rr X Y).1 i = (sirIndividual nbrs' tr rr X Y).1 i ∧
+    (sirIndividual nbrs tr rr X Y).2 i = (sirIndividual nbrs' tr rr X Y).2 i :=
+  sirIndividual_nbr_perm' nbrs nbrs' hp tr rr X Y i
+
+/-- **relabelling**: if σ is a bijection with inverse σ' and the relabelled graph has neighbours
+`nbrs' (σ i) = (nbrs i).map σ`, rates and state transported along σ, then the right-hand side is transported too -/
+theorem sisIndividual_relabel (σ σ' : Nat → Nat) (hl : ∀ i, σ' (σ i) = i) (hr : ∀ j, σ (σ' j) = j)
+    (nbrs nbrs' : Nat → List Nat) (hn : ∀ i, nbrs' (σ i) = (nbrs i).map σ)
+    (tr : Nat → Nat → Rat) (rr Y : Nat → Rat) (i : Nat) :
+    sisIndividual nbrs' (fun a b => tr (σ' a) (σ' b)) (fun a => rr (σ' a)) (fun a => Y (σ' a)) (σ i)
+      = sisIndividual nbrs tr rr Y i :=
+  sisIndividual_relabel' σ σ' hl nbrs nbrs' hn tr rr Y i
+theorem sirIndividual_relabel (σ σ' : Nat → Nat) (hl : ∀ i, σ' (σ i) = i) (hr : ∀ j, σ (σ' j) = j)
+    (nbrs nbrs' : Nat → List Nat) (hn : ∀ i, nbrs' (σ i) = (nbrs i).map σ)
+    (tr : Nat → Nat → Rat) (rr X Y : Nat → Rat) (i : Nat) :
+    let a := sirIndividual nbrs' (fun a b => tr (σ' a) (σ' b)) (fun a => rr (σ' a)) (fun a => X (σ' a)) (fun a => Y (σ' a))
+    let b := sirIndividual nbrs tr rr X Y
+    a.1 (σ i) = b.1 i ∧ a.2 (σ i) = b.2 i :=
+  sirIndividual_relabel' σ σ' hl nbrs nbrs' hn tr rr X Y i
+end ODE
+
+/-! ## node names: relabelling the discrete-time simulator and the reachability model -/
+namespace Discrete
+
+/-- the BFS balls of the relabelled network are the images of the balls -/
+theorem ball_relabel (σ σ' : Node → Node) (hl : ∀ i, σ' (σ i) = i) (hr : ∀ j, σ (σ' j) = j)
+    (P : DParams) (infs recs : List Node) (k : Nat) :
+    ball (relabel σ σ' P) (infs.map σ) (recs.map σ) k = (ball P infs recs k).map σ :=
+  ball_relabel' σ σ' hl P infs recs k
+
+/-- … hence BFS distances (= infection steps, `bfs_correct`) are the same up to relabelling -/
+theorem bfs_relabel (σ σ' : Node → Node) (hl : ∀ i, σ' (σ i) = i) (hr : ∀ j, σ (σ' j) = j)
+    (P : DParams) (infs recs : List Node) (v : Node) :
+    bfs (relabel σ σ' P) (infs.map σ) (recs.map σ) (σ v) = bfs P infs recs v :=
+  bfs_relabel' σ σ' hl P infs recs v
+
+/-- one generation commutes with relabelling: counts equal, infectious set mapped -/
+theorem step_relabel (σ σ' : Node → Node) (hl : ∀ i, σ' (σ i) = i) (hr : ∀ j, σ (σ' j) = j)
+    (P : DParams) (s : DState) :
+    let s' : DState := { s with sus := fun a => s.sus (σ' a), inf := s.inf.map σ, age := fun a => s.age (σ' a),
+                                infTime := s.infTime.map fun e => (σ e.1, e.2),
+                                infectors := s.infectors.map fun e => (σ e.1, e.2.1, e.2.2.map σ) }
+    (step (relabel σ σ' P) s').inf = (step P s).inf.map σ ∧
+    (step (relabel σ σ' P) s').S = (step P s).S ∧ (step (relabel σ σ' P) s').I = (step P s).I ∧
+    (step (relabel σ σ' P) s').R = (step P s).R ∧
+    (step (relabel σ σ' P) s').infTime = (step P s).infTime.map fun e => (σ e.1, e.2) :=
+  step_relabel' σ σ' hl P s
+end Discrete
+
+namespace Perc
+theorem reachFrom_relabel (σ σ' : Node → Node) (hl : ∀ i, σ' (σ i) = i) (hr : ∀ j, σ (σ' j) = j)
+    (nodes : List Node) (succ : Node → List Node) (src : List Node) :
+    reachFrom (nodes.map σ) (fun a => (succ (σ' a)).map σ) (src.map σ) = (reachFrom nodes succ src).map σ :=
+  reachFrom_relabel' σ σ' hl nodes succ src
+
+/-- the estimator's allowed values (fractions of nodes) do not depend on node names -/
+theorem allowed_relabel (σ σ' : Node → Node) (hl : ∀ i, σ' (σ i) = i) (hr : ∀ j, σ (σ' j) = j)
+    (nodes : List Node) (succ : Node → List Node) :
+    allowed (nodes.map σ) (fun a => (succ (σ' a)).map σ) = allowed nodes succ :=
+  allowed_relabel' σ σ' hl nodes succ
+end Perc
+
+/-! non-vacuity: the transposition of nodes 0 and 2 on the directed path 0 → 1 → 2 (plus the 2-cycle 1 ⇄ 2) is its
+own inverse; the relabelled instance is a genuinely different labelled graph, the BFS distance of the image of node 2
+is unchanged, and the estimator's allowed values coincide -/
+namespace C14Ex
+def σ (i : Node) : Node := if i = 0 then 2 else if i = 2 then 0 else i
+theorem σσ (i : Node) : σ (σ i) = i := by unfold σ; grind
+def succ (u : Node) : List Node := match u with | 0 => [1] | 1 => [2] | 2 => [1] | _ => []
+def P : DParams := { nodes := [0, 1, 2], nbrs := succ, rule := fun _ _ => true, recSteps := none, tmin := 0, tmax := none }
+
+example : (Discrete.relabel σ σ P).nodes = [2, 1, 0] ∧ (Discrete.relabel σ σ P).nbrs 2 = [1] ∧
+    (Discrete.relabel σ σ P).nbrs 0 = [1] ∧ (Discrete.relabel σ σ P).nbrs 1 = [0] := by decide +kernel
+example : Discrete.bfs P [0] [] 2 = some 2 ∧
+    Discrete.bfs (Discrete.relabel σ σ P) ([0].map σ) ([].map σ) (σ 2) = some 2 := by decide +kernel
+example : Discrete.ball (Discrete.relabel σ σ P) ([0].map σ) ([].map σ) 1 = [2, 1] ∧
+    Discrete.ball P [0] [] 1 = [0, 1] := by decide +kernel
+example : Perc.allowed [0, 1, 2] succ = [(1, 2/3), (1, 2/3)] ∧
+    Perc.allowed ([0, 1, 2].map σ) (fun a => (succ (σ a)).map σ) = [(1, 2/3), (1, 2/3)] := by decide +kernel
+example : Discrete.ball (Discrete.relabel σ σ P) ([0].map σ) ([].map σ) 1 = (Discrete.ball P [0] [] 1).map σ :=
+  Discrete.ball_relabel σ σ σσ σσ P [0] [] 1
+end C14Ex
